@@ -112,6 +112,11 @@ def cases(L, tier, seed):
         if not ONLY or 'C07' in ONLY:
             yield RT.Mfpts(), C.mfpts, dict(tprob=T.copy(), lagtime=2.0), ('mfpts-table', T.round(4).tolist())
             yield RT.Mfpts(), C.mfpts, dict(tprob=np.asmatrix(T.copy())), ('mfpts-table-npmatrix', T.round(4).tolist())
+            # same numbers, other memory layouts (column-major copy, transposed view of the column-stochastic matrix, strided view)
+            big = np.zeros((2 * n, 2 * n)); big[::2, ::2] = T
+            for nm, M in (('fortran-order', np.asfortranarray(T)), ('transposed-view', np.ascontiguousarray(T.T).T), ('strided-view', big[::2, ::2])):
+                yield RT.Mfpts(), C.mfpts, dict(tprob=M, lagtime=2.0), ('mfpts-table-' + nm, T.round(4).tolist())
+                yield RT.Mfpts(), C.mfpts, dict(tprob=M, sinks=[n - 1], lagtime=2.0), ('mfpts-sinks-' + nm, T.round(4).tolist())
             yield RT.Relational(), relational, dict(T=T.copy()), ('relational', T.round(4).tolist())
 
 
